@@ -142,3 +142,12 @@ reg('C05', engine='llsym',
          'copies preserve all 80 value bits.',
     note='Trusted: clang IR, llsym semantics, z3 FP. The numeric long double <-> double conversion is not claimed.',
     technique='symbolic execution of LLVM IR, SMT (z3 floating point + bit-vectors)')
+
+reg('C01', engine='llsym',
+    text='Bounded symbolic execution of the real struct/union completion code on field sequences whose sizes, '
+         'alignments, bit widths and named/anonymous flags are symbolic, proved equal (offsets, bit positions, '
+         'sizeof, alignof, var-array flag, no rejection) to an independent statement of the SysV/GCC layout rule '
+         'that is itself validated against gcc on random structs at every run.',
+    note='Trusted: clang IR, llsym semantics, the reference model (validated vs gcc), CPython contracts. Field count '
+         '<= 3 (4); nesting represented inductively; cdef-to-backend plumbing only through replays.',
+    technique='differential symbolic execution of LLVM IR against a reference model, SMT (z3 bit-vectors)')
